@@ -131,3 +131,23 @@ func C07(c *Ctx) {
 	}
 	c.Rep.Count("programs_where_optimiser_changed_text", fired)
 }
+
+// C03 — locals and lexical scoping survive suspension.
+func C03(c *Ctx) {
+	progs := cases.Scope()
+	n := 700
+	if c.Thorough() {
+		n = 8000
+	}
+	progs = append(progs, genr.Scope(n, c.Seed)...)
+	c.Rep.Rule = "programs that declare, shadow (nested blocks, if/for/switch/type-switch initialisers, range variables, case clauses), update and capture int locals from a 4-name pool at arbitrary positions relative to yields; every relevant variable read is a trace event r<id>=<value>; compared: full trace compiled vs reference coroutine under every tape path. non-trivial = >= 2 yields and the program shadows or captures; distinct = program text hash x tape."
+	RunE1(c, E1Spec{
+		Programs: progs,
+		Opts:     e1.Opts{},
+		Kinds:    []string{"CR-full", "STUB"},
+		NonTrivial: func(o *e1.Outcome) bool {
+			return yields2(o) && (o.Prog.Has("shadow") || o.Prog.Has("closure-capture-across-yield") || o.Prog.Has("for-post-yield"))
+		},
+		MinDistinct: 300,
+	})
+}
